@@ -139,6 +139,8 @@ func coqClass(k string) string {
 		return "EClient"
 	case "wrapsafe":
 		return "EWrapsSafe"
+	case "custom":
+		return "ECustom"
 	}
 	return "EPlain"
 }
